@@ -1,6 +1,7 @@
 """Translator plug-in of the collection cluster (C07 / C08 / C16): google tag groups, example tags,
 freeform skip tags (semantic tables, USED by the Lean model) and the source texts of the patterns the
-hand-written matchers of Google.lean / Static.lean were derived from (PINNED in Pins/Collect.lean)."""
+hand-written matchers of Google.lean / Static.lean were derived from (PINNED in Pins/Collect.lean; the texts of
+_find_docstr_startpos_workaround in Pins/DocstrWorkaround.lean, an obligation of C08 only while that function is reachable)."""
 import os
 
 
